@@ -72,6 +72,8 @@ type recHandler struct {
 	events  []recEvent
 	removed bool
 	late    []recEvent // events received after RemoveEventHandlers returned
+	resync  bool       // added with its own resync period (has a timer of its own)
+	judged  bool       // removed through RemoveEventHandlers: must stay silent from then on
 }
 
 func (h *recHandler) rec(ev recEvent) {
@@ -170,6 +172,8 @@ func runC18Sequence(rep *sim.Reporter, id string, nsub, nres int, ops []c18Op) (
 		}
 	}
 	objSeq := 0
+	anyResync := false
+	var everAdded []*recHandler
 	alive := make([][]string, nres) // object names per resource
 	var opDesc []string
 	ok = true
@@ -261,11 +265,14 @@ func runC18Sequence(rep *sim.Reporter, id string, nsub, nres int, ops []c18Op) (
 			snapshot := e.sim.Visible(gvr)
 			synced := slot.handle.Informer().HasSynced()
 			if op.Op == "addhr" {
+				rh.resync = true
+				anyResync = true
 				slot.handle.Informer().AddEventHandlerWithResyncPeriod(rh.handler(), 40*time.Millisecond)
 			} else {
 				slot.handle.Informer().AddEventHandler(rh.handler())
 			}
 			slot.handlers = append(slot.handlers, rh)
+			everAdded = append(everAdded, rh)
 			// replay at add time: if the cache was synced, the handler must have been shown
 			// everything already cached by the time AddEventHandler returns
 			if synced && len(snapshot) > 0 {
@@ -282,10 +289,18 @@ func runC18Sequence(rep *sim.Reporter, id string, nsub, nres int, ops []c18Op) (
 				continue
 			}
 			slot.handle.Informer().RemoveEventHandlers()
+			waitTimers := false
 			for _, h := range slot.handlers {
 				h.mu.Lock()
 				h.removed = true
+				h.judged = true
+				waitTimers = waitTimers || h.resync
 				h.mu.Unlock()
+			}
+			if waitTimers {
+				// a handler with its own resync period has a timer of its own; give a timer that
+				// was not stopped the time to show itself (2.5 periods)
+				time.Sleep(100 * time.Millisecond)
 			}
 		case "close":
 			if slot.handle == nil {
@@ -402,9 +417,28 @@ func runC18Sequence(rep *sim.Reporter, id string, nsub, nres int, ops []c18Op) (
 		for r := 0; r < nres; r++ {
 			if sl := slots[s][r]; sl.handle != nil {
 				sl.handle.Informer().RemoveEventHandlers()
+				for _, h := range sl.handlers {
+					h.mu.Lock()
+					h.removed = true
+					h.judged = true
+					h.mu.Unlock()
+				}
 				sl.handle.Close()
 				sl.handle = nil
 			}
+		}
+	}
+	// every handler that was removed through RemoveEventHandlers stayed silent to the end, also
+	// after its subscription (and the informer) was closed
+	if anyResync {
+		time.Sleep(100 * time.Millisecond)
+	}
+	for _, h := range everAdded {
+		h.mu.Lock()
+		late, judged := len(h.late), h.judged
+		h.mu.Unlock()
+		if judged && late > 0 {
+			viol("event-after-remove", fmt.Sprintf("handler %s received %d event(s) after its subscription's RemoveEventHandlers returned", h.id, late))
 		}
 	}
 	for r := 0; r < nres; r++ {
